@@ -43,6 +43,58 @@ func isDigit(ch int) bool {
 	return '0' <= ch && ch <= '9' || 'a' <= ch && ch <= 'f' || 'A' <= ch && ch <= 'F'
 }
 
+// ParseNumber converts a Lua numeral to its value: decimal digits with an optional
+// fraction and an optional decimal exponent, or 0x followed by hexadecimal digits.
+// Nothing else is a numeral: no sign, no blanks, no "inf" or "nan", no hexadecimal
+// fraction or binary exponent, no digit separators and no other base prefixes.
+func ParseNumber(s string) (float64, bool) {
+	n := len(s)
+	if n > 2 && s[0] == '0' && (s[1] == 'x' || s[1] == 'X') {
+		for i := 2; i < n; i++ {
+			if !isDigit(int(s[i])) {
+				return 0, false
+			}
+		}
+		if v, err := strconv.ParseUint(s[2:], 16, 64); err == nil {
+			return float64(v), true
+		}
+		// wider than 64 bits: let the hexadecimal float reader do the rounding
+		v, _ := strconv.ParseFloat(s+"p0", 64)
+		return v, true
+	}
+	i, digits := 0, 0
+	for ; i < n && isDecimal(int(s[i])); i++ {
+		digits++
+	}
+	if i < n && s[i] == '.' {
+		for i++; i < n && isDecimal(int(s[i])); i++ {
+			digits++
+		}
+	}
+	if digits == 0 {
+		return 0, false
+	}
+	if i < n && (s[i] == 'e' || s[i] == 'E') {
+		i++
+		if i < n && (s[i] == '+' || s[i] == '-') {
+			i++
+		}
+		start := i
+		for i < n && isDecimal(int(s[i])) {
+			i++
+		}
+		if i == start {
+			return 0, false
+		}
+	}
+	if i != n {
+		return 0, false
+	}
+	// the text is a plain decimal numeral now; an out of range value comes back as 0 or +Inf
+	v, _ := strconv.ParseFloat(s, 64)
+	return v, true
+}
+
 type Scanner struct {
 	Pos    ast.Position
 	reader *bufio.Reader
